@@ -177,6 +177,39 @@ func (e *env) karabina(ti *tinfo, name string) {
 			e.c.Check("BatchDecompressKarabina", key+"/"+kind, ok, func() string { return fmt.Sprintf("n=%d entry %d (%s)", n, bad, els[bad%len(els)].cls) })
 			e.c.Class(fmt.Sprintf("%s/BatchDecompressKarabina/n%d", e.N, n))
 		}
+		// the batch routine on what it is made for: compressed squares, each written by CyclotomicSquareCompressed into a
+		// receiver that held something else before (the coordinates that are not part of the compressed form keep that
+		// content): entry i must come back as els[i]^2, exactly as the single-element routine gives
+		if ok1 {
+			for _, n := range []int{1, 2, len(els), len(els) + 3} {
+				sl := reflect.MakeSlice(reflect.SliceOf(ti.T), n, n)
+				good := true
+				for i := 0; i < n && good; i++ {
+					c1 := e.junk(ti)
+					_, good = e.call(ti, c1, "CyclotomicSquareCompressed", func() string { return "compressing for the batch" }, e.mk(ti, els[i%len(els)].v))
+					sl.Index(i).Set(c1.Elem())
+				}
+				if !good {
+					continue
+				}
+				var res []reflect.Value
+				key := e.N + "/BatchDecompressKarabina"
+				if e.c.Guard(key+"/panic", func() string { return fmt.Sprintf("compressed squares, n=%d", n) }, func() { res = reflect.ValueOf(fn).Call([]reflect.Value{sl}) }) {
+					continue
+				}
+				out := res[0]
+				ok, bad := out.Len() == n, -1
+				for i := 0; ok && i < n; i++ {
+					if !f.Eq(e.rd(out.Index(i).Addr()), f.Sqr(els[i%len(els)].v)) {
+						ok, bad = false, i
+					}
+				}
+				e.c.Check("BatchDecompressKarabina", key+"/compressed-squares-in-used-receivers/value-mismatch", ok, func() string {
+					return fmt.Sprintf("n=%d entry %d (%s): not the square of the compressed element", n, bad, els[bad%len(els)].cls)
+				})
+				e.c.Class(fmt.Sprintf("%s/BatchDecompressKarabina/compressed-squares/n%d", e.N, n))
+			}
+		}
 	}
 }
 
